@@ -143,13 +143,23 @@ def pair_rule(run, f, rid):
                 if not succ:
                     ok, why = False, "no match on the Steal result"
                 else:
-                    okp = all(cfg.must_pass([a], [decs[0][0]])[0] for a in succ)
-                    # the decrement is reached only through a Success arm
-                    leak = decs[0][0] in cfg.reachable({0}, avoid=succ)
-                    # ... and at most once per Success: it cannot be reached again without another Success
-                    twice = decs[0][0] in cfg.reachable(set(cfg.after(decs[0][0])), avoid=succ)
-                    ok = okp and not leak and not twice
-                    why = "Success arm reaches the decrement on all paths: %s; decrement reachable without a Steal::Success: %s" % (okp, leak)
+                    # path by path: a path decrements exactly as often as it passes a Success arm (the item may travel
+                    # through a helper's `Option`, `find_map` and `?` before the counter is touched)
+                    from analysis.table import result_outcomes
+                    w_ = PathWalker(b, max_paths=60000)
+                    bad_ = None
+                    for (pth, _c, sv) in w_.walk(0, lambda bid, t: ("return",) if t["k"] == "return" else None):
+                        if sv[0] != "return":
+                            continue
+                        _oc, feas = result_outcomes(b, du, pth)
+                        if not feas:
+                            continue
+                        ns = len([x for x in pth if x in succ])
+                        nd = len([x for x in pth if x == decs[0][0]])
+                        if ns != nd:
+                            bad_ = "a path passes %d Steal::Success arm(s) and decrements %d time(s)" % (ns, nd)
+                    ok = bad_ is None
+                    why = bad_ or ""
                     if ok and decs[0][2] == "fetch_update":
                         # the update closure: the one handed to this fetch_update (wherever it is defined)
                         cl = []
@@ -273,10 +283,18 @@ def ascending_rule(run, f, rid):
             if arm is None:
                 why.append("no match on the bucket pop result")
             else:
-                for arm in arms:
-                    r = cfg.reachable({arm})
-                    if nb in r or not (set(cfg.returns) & r):
+                from analysis.table import result_outcomes
+                w_ = PathWalker(b, max_paths=60000)
+                for (pth, _c, sv) in w_.walk(0, lambda bid, t: ("return",) if t["k"] == "return" else None):
+                    if sv[0] != "return":
+                        continue
+                    _oc, feas = result_outcomes(b, du, pth)
+                    if not feas:
+                        continue
+                    hit = [i for i, x in enumerate(pth) if x in arms]
+                    if hit and any(x == nb for x in pth[hit[0]:]):
                         why.append("a successful bucket pop does not return immediately (the scan continues to later priorities)")
+                why = sorted(set(why))
                 # and the value returned on that arm is the popped one
                 lw = Linear(b, [], lambda c, t: c == inner, lambda c, t: None)
                 lw.run()
@@ -464,9 +482,10 @@ def source_rule(run, f, rid):
 def tick_rule(run, f, rid):
     run.rule(rid, "every k-th pop (k<=61) consults the shared queue before the local one and returns its item", floor=4, template="T2/T3")
     for fn, shared_pop, local_pops in ((LQ + "::pop", WS + "::pop", ("st3::fifo::Worker::pop",)), (OLQ + "::pop", OWS + "::pop", (OLQ + "::pop_local",))):
-        b = need(run, rid, f, fn)
+        b = unit(run, rid, f, fn)      # a `pop_shared_on_tick` helper is part of pop
         if b is None:
             continue
+        from analysis.table import outcome_on_path, result_outcomes
         cfg = Cfg(b)
         du = DefUse(b)
         ticks = find_calls(b, callee_ends("::tick"))
@@ -486,42 +505,30 @@ def tick_rule(run, f, rid):
             if k is None or not (1 <= k <= 61):
                 why.append("the period %r is not a constant in 1..=61" % (k,))
         if not why:
-            # true edge of the switch on is_multiple_of result
-            mb, mt = mult[0]
-            sw = None
-            for x in sorted(cfg.reachable(cfg.after(mb))):
-                tt = b.blocks[x]["term"]
-                if tt["k"] == "switch" and op_local(tt["discr"]) == mt["dest"]["l"]:
-                    sw = x
-                    break
-            if sw is None:
+            # path by path: when the periodic test holds, the first queue consulted is the shared one, and an item it
+            # yields is returned without touching another queue
+            mb = mult[0][0]
+            sp = {x for (x, t) in find_calls(b, callee_is(shared_pop))}
+            lp = {x for (x, t) in find_calls(b, callee_is(*local_pops))} | {x for (x, t) in find_calls(b, callee_is("st3::fifo::Stealer::steal"))}
+            w = PathWalker(b, max_paths=60000)
+            seen_true = 0
+            for (pth, _c, sv) in w.walk(0, lambda bid, t: ("return",) if t["k"] == "return" else None):
+                if sv[0] != "return":
+                    continue
+                if outcome_on_path(b, du, pth, mb) is not True:
+                    continue
+                oc, feasible = result_outcomes(b, du, pth)
+                if not feasible:
+                    continue
+                seen_true += 1
+                pops = [x for x in pth if x in sp or x in lp]
+                if not pops or pops[0] not in sp:
+                    why.append("on the periodic branch the local queue can be popped (or the function can return) before the shared queue is consulted")
+                elif oc.get(pops[0]) == "ok" and len(pops) > 1:
+                    why.append("an item obtained from the shared queue on the periodic branch is not returned at once")
+            if not seen_true:
                 why.append("result of is_multiple_of is not branched on")
-            else:
-                tt = b.blocks[sw]["term"]
-                true_bb = tt["otherwise"] if all(int(v) == 0 for v, _ in tt["targets"]) else [bb for v, bb in tt["targets"] if int(v) == 1][0]
-                sp = [x for (x, t) in find_calls(b, callee_is(shared_pop)) if cfg.dominates(true_bb, x)]
-                lp = [x for (x, t) in find_calls(b, callee_is(*local_pops))]
-                if len(sp) != 1:
-                    why.append("the periodic branch does not call %s (found %d calls)" % (shared_pop.split("::", 2)[-1], len(sp)))
-                else:
-                    r = cfg.reachable({true_bb}, avoid={sp[0]})
-                    if any(x in r for x in lp) or (set(cfg.returns) & r):
-                        why.append("on the periodic branch the local queue can be popped (or the function can return) before the shared queue is consulted")
-                    # Some arm returns that value without another pop
-                    spt = b.blocks[sp[0]]["term"]
-                    arm = None
-                    for x in sorted(cfg.reachable(cfg.after(sp[0]))):
-                        if b.blocks[x]["term"]["k"] == "switch":
-                            si = switch_info(b, du, x)
-                            if si["kind"] == "discr" and si["place"]["l"] == spt["dest"]["l"]:
-                                arm = si["arms"].get("Some")
-                                break
-                    if arm is None:
-                        why.append("result of the shared pop is not matched")
-                    else:
-                        r2 = cfg.reachable({arm})
-                        if any(x in r2 for x in lp) or any(x in r2 for (x, _t) in find_calls(b, callee_is(shared_pop))):
-                            why.append("an item obtained from the shared queue on the periodic branch is not returned at once")
+            why = sorted(set(why))
         if why:
             run.fail(rid, fn + "/tick", b.loc(), "; ".join(why))
         else:
@@ -544,68 +551,64 @@ def tick_rule(run, f, rid):
 
 
 def fallback_rule(run, f, rid):
+    """Path by path over pop as one unit (its lock helpers spliced in, whatever they are called): a path on which no
+    queue yielded an item ends with the shared pop whose answer is returned; a successful steal is followed by a local
+    pop; the steal lock taken on a path is released on it."""
+    from analysis.table import result_outcomes
     run.rule(rid, "a local miss never reports empty without consulting siblings' result or the shared queue", floor=2, template="T1")
-    for fn, shared_pop, local_pops in ((LQ + "::pop", WS + "::pop", ("st3::fifo::Worker::pop",)), (OLQ + "::pop", OWS + "::pop", (OLQ + "::pop_local",))):
-        b = need(run, rid, f, fn)
+    for fn, shared_pop, local_pops, adt in ((LQ + "::pop", WS + "::pop", ("st3::fifo::Worker::pop",), LQ), (OLQ + "::pop", OWS + "::pop", (OLQ + "::pop_local",), OLQ)):
+        b = unit(run, rid, f, fn, force=("try_lock", "release_lock", "can_steal"))
         if b is None:
             continue
         cfg = Cfg(b)
         du = DefUse(b)
-        lp = find_calls(b, callee_is(*local_pops))
-        sp = find_calls(b, callee_is(shared_pop))
+        lp = {x for (x, t) in find_calls(b, callee_is(*local_pops))}
+        sp = {x for (x, t) in find_calls(b, callee_is(shared_pop))}
+        st = {x for (x, t) in find_calls(b, callee_is("st3::fifo::Stealer::steal"))}
         if not lp or not sp:
             run.fail(rid, fn + "/fallback", b.loc(), "local pop or shared pop call missing")
             continue
-        # first local pop = the one that dominates the others / is not dominated by try_lock
-        tl = find_calls(b, callee_ends("::try_lock"))
-        first = [x for (x, t) in lp if not any(cfg.dominates(l, x) for (l, _t) in tl)]
+        lock_take, lock_rel = set(), set()
+        for (x, t) in b.calls():
+            c = norm(t.get("callee") or "")
+            if c.startswith("std::sync::atomic::Atomic::") and t["args"] and receiver_key(b, du, t["args"][0]) == (adt, "stealing"):
+                m = c.rsplit("::", 1)[1]
+                if m in ("compare_exchange", "compare_exchange_weak", "swap", "fetch_or"):
+                    lock_take.add(x)
+                elif m in ("store", "fetch_and"):
+                    lock_rel.add(x)
         why = []
-        if len(first) != 1:
-            why.append("cannot identify the first local pop")
-        else:
-            fb = first[0]
-            ft = b.blocks[fb]["term"]
-            arm_none = None
-            for x in sorted(cfg.reachable(cfg.after(fb))):
-                if b.blocks[x]["term"]["k"] == "switch":
-                    si = switch_info(b, du, x)
-                    if si["kind"] == "discr" and si["place"]["l"] == ft["dest"]["l"]:
-                        arm_none = si["arms"].get("None")
-                        break
-            if arm_none is None:
-                why.append("result of the local pop is not matched")
-            else:
-                through = [x for (x, t) in sp if x in cfg.reachable({arm_none})] + [x for (x, t) in lp if x != fb and x in cfg.reachable({arm_none})]
-                okp, wit = cfg.must_pass([arm_none], through)
-                if not okp:
+        if not st:
+            why.append("expected a steal site")
+        if not lock_take or not lock_rel:
+            why.append("the steal lock (stealing flag) is not taken and released with atomic operations")
+        w = PathWalker(b, max_paths=80000)
+        npaths = 0
+        for (pth, _c, sv) in w.walk(0, lambda bid, t: ("return",) if t["k"] == "return" else None):
+            if sv[0] != "return" or why:
+                continue
+            oc, feasible = result_outcomes(b, du, pth)
+            if not feasible:
+                continue
+            npaths += 1
+            pops = [x for x in pth if x in lp or x in sp]
+            steals_ok = [i for i, x in enumerate(pth) if x in st and oc.get(x) == "ok"]
+            if not pops:
+                why.append("the function can return without popping any queue")
+                continue
+            last = pops[-1]
+            found = oc.get(last) == "ok"
+            if not found and last not in sp:
+                # the last queue asked was the local one: fine only right after a successful steal
+                if not (steals_ok and pth.index(last) > steals_ok[-1]):
                     why.append("after a local miss the function can return without popping the shared queue (and without a successful steal)")
-                # the final shared pop's result is the function result
-                finals = [x for (x, t) in sp if t["dest"]["l"] == 0 and x in cfg.reachable({arm_none})]
-                if not finals:
-                    why.append("no shared pop whose result is returned directly on the miss path")
-                # a successful steal returns the local pop
-                st = find_calls(b, callee_is("st3::fifo::Stealer::steal"))
-                if len(st) != 1:
-                    why.append("expected one steal site")
-                else:
-                    after_steal_local = [x for (x, t) in lp if cfg.dominates(st[0][0], x)]
-                    if not after_steal_local:
-                        why.append("a successful steal is not followed by a local pop")
-                # release_lock on every path after try_lock succeeded
-                rl = [x for (x, t) in find_calls(b, callee_ends("::release_lock"))]
-                for (l, lt) in tl:
-                    sw = None
-                    for x in sorted(cfg.reachable(cfg.after(l))):
-                        tt = b.blocks[x]["term"]
-                        if tt["k"] == "switch" and op_local(tt["discr"]) == lt["dest"]["l"]:
-                            sw = x
-                            break
-                    if sw is not None:
-                        tt = b.blocks[sw]["term"]
-                        true_bb = tt["otherwise"] if all(int(v) == 0 for v, _ in tt["targets"]) else [bb for v, bb in tt["targets"] if int(v) == 1][0]
-                        okr, _ = cfg.must_pass([true_bb], rl)
-                        if not okr:
-                            why.append("the steal lock is not released on every path (later pops would never steal again)")
+            if steals_ok and not any(x in lp and pth.index(x) > steals_ok[-1] for x in pops):
+                why.append("a successful steal is not followed by a local pop")
+            took = [i for i, x in enumerate(pth) if x in lock_take and oc.get(x) == "ok"]
+            if took and not any(i > took[-1] for i, x in enumerate(pth) if x in lock_rel):
+                why.append("the steal lock is not released on every path (later pops would never steal again)")
+        run.count("paths_or_states", npaths)
+        why = sorted(set(why))
         if why:
             run.fail(rid, fn + "/fallback", b.loc(), "; ".join(why))
         else:
